@@ -210,9 +210,205 @@ end FaxVerif.Cpp
 namespace FaxVerif.Cpp
 variable {D : Type}
 
+/-! ## the path-sensitive part of the invariant -/
+
+/-- `f` holds a value that a condition reads as false -/
+def Falsy (N : Num D) (σ : Env D) (f : String) : Prop :=
+  ∃ v, σ f = some (.val v) ∧ asBool N v = some false
+
+/-- flags in `T` hold `true` in both states; a fact `(f, x)` says: when `f` is false in the first
+state, `x` is initialised — to the same value in both states. -/
+def Extra (N : Num D) (s : DA) (σ σ' : Env D) : Prop :=
+  (∀ f ∈ s.T, σ f = some (.val (.bool true)) ∧ σ' f = some (.val (.bool true))) ∧
+  (∀ p ∈ s.G, Falsy N σ p.1 → ∃ v, σ p.2 = some (.val v) ∧ σ' p.2 = some (.val v))
+
+def Good2 (N : Num D) (s : DA) (σ σ' : Env D) : Prop := Good s σ σ' ∧ Extra N s σ σ'
+
+theorem Good.of_eq {s s' : DA} {σ σ' : Env D} (h : Good s σ σ') (hA : s'.A = s.A) (hD : s'.D = s.D) :
+    Good s' σ σ' := by
+  unfold Good at *; rw [hA, hD]; exact h
+
+theorem Env.set_ne (σ : Env D) (x y : String) (v : Val D) (h : y ≠ x) : (σ.set x v) y = σ y := by
+  simp [Env.set, h]
+
+theorem Env.set_eq (σ : Env D) (x : String) (v : Val D) : (σ.set x v) x = some (.val v) := by
+  simp [Env.set]
+
+theorem Env.declare_ne (σ : Env D) (x y : String) (h : y ≠ x) : (σ.declare x) y = σ y := by
+  simp [Env.declare, h]
+
+theorem Falsy.set_ne (N : Num D) (σ : Env D) (x f : String) (v : Val D) (h : f ≠ x) :
+    Falsy N (σ.set x v) f ↔ Falsy N σ f := by
+  unfold Falsy; rw [Env.set_ne σ x f v h]
+
+theorem Falsy.declare_ne (N : Num D) (σ : Env D) (x f : String) (h : f ≠ x) :
+    Falsy N (σ.declare x) f ↔ Falsy N σ f := by
+  unfold Falsy; rw [Env.declare_ne σ x f h]
+
+theorem eff_sound {N : Num D} {s : DA} {σ σ' : Env D} (h : Good2 N s σ σ') (p : String × String)
+    (he : s.eff p = true) (hf : Falsy N σ p.1) : ∃ v, σ p.2 = some (.val v) ∧ σ' p.2 = some (.val v) := by
+  simp only [DA.eff, Bool.or_eq_true, decide_eq_true_eq] at he
+  rcases he with (he | he) | he
+  · exact h.2.2 p he hf
+  · exact h.1.1 p.2 he
+  · obtain ⟨v, hv, hb⟩ := hf
+    have := (h.2.1 p.1 he).1
+    rw [this] at hv
+    simp only [Option.some.injEq, Slot.val.injEq] at hv
+    subst hv
+    simp [asBool] at hb
+
+/-- a fact about names other than `x` survives an assignment to `x`; a fact whose target is `x` holds after it -/
+theorem fact_set {N : Num D} {σ σ' : Env D} (p : String × String) (x : String) (v : Val D)
+    (hp : p.1 ≠ x)
+    (h : Falsy N σ p.1 → ∃ w, σ p.2 = some (.val w) ∧ σ' p.2 = some (.val w)) :
+    Falsy N (σ.set x v) p.1 → ∃ w, (σ.set x v) p.2 = some (.val w) ∧ (σ'.set x v) p.2 = some (.val w) := by
+  intro hf
+  by_cases h2 : p.2 = x
+  · rw [h2]; exact ⟨v, Env.set_eq σ x v, Env.set_eq σ' x v⟩
+  · obtain ⟨w, h1, h2'⟩ := h ((Falsy.set_ne N σ x p.1 v hp).1 hf)
+    exact ⟨w, by rw [Env.set_ne σ x p.2 v h2]; exact h1, by rw [Env.set_ne σ' x p.2 v h2]; exact h2'⟩
+
+theorem Good2.assign {N : Num D} {s : DA} {σ σ' : Env D} (h : Good2 N s σ σ') (x : String) (v : Val D) :
+    Good2 N (s.assign x) (σ.set x v) (σ'.set x v) := by
+  have hg : Good (s.assign x) (σ.set x v) (σ'.set x v) := (h.1.set' x v).of_eq rfl rfl
+  refine ⟨hg, ?_, ?_⟩
+  · intro f hf
+    simp only [DA.assign, List.mem_filter, bne_iff_ne, ne_eq] at hf
+    rw [Env.set_ne σ x f v hf.2, Env.set_ne σ' x f v hf.2]
+    exact h.2.1 f hf.1
+  · intro p hp
+    simp only [DA.assign, List.mem_filter, Bool.or_eq_true, bne_iff_ne, ne_eq, decide_eq_true_eq] at hp
+    rcases hp.2 with h1 | h2
+    · exact fact_set p x v h1 (h.2.2 p hp.1)
+    · intro _; exact hg.1 p.2 h2
+
+theorem Good2.restrict {N : Num D} {s : DA} {σ σ' : Env D} (h : Good2 N s σ σ') (D0 : List String)
+    (hD : ∀ x ∈ D0, x ∈ s.D) : Good2 N (s.restrict D0) σ σ' := by
+  refine ⟨⟨?_, fun x hx => h.1.2 x (hD x hx)⟩, ?_, ?_⟩
+  · intro x hx
+    simp only [DA.restrict, List.mem_filter] at hx
+    exact h.1.1 x hx.1
+  · intro f hf
+    simp only [DA.restrict, List.mem_filter] at hf
+    exact h.2.1 f hf.1
+  · intro p hp
+    simp only [DA.restrict, List.mem_filter] at hp
+    exact h.2.2 p hp.1
+
+theorem Good2.join_left {N : Num D} {st se : DA} {σ σ' : Env D} (h : Good2 N st σ σ') (D0 : List String)
+    (hD : ∀ x ∈ D0, x ∈ st.D) : Good2 N (DA.join D0 st se) σ σ' := by
+  refine ⟨⟨?_, fun x hx => h.1.2 x (hD x hx)⟩, ?_, ?_⟩
+  · intro x hx
+    simp only [DA.join, List.mem_filter, mem_inter] at hx
+    exact h.1.1 x hx.1.1
+  · intro f hf
+    simp only [DA.join, List.mem_filter, mem_inter] at hf
+    exact h.2.1 f hf.1.1
+  · intro p hp
+    simp only [DA.join, List.mem_filter, List.mem_append] at hp
+    rcases hp.1 with h1 | h1
+    · exact h.2.2 p h1.1
+    · exact eff_sound h p h1.2
+
+theorem Good2.join_right {N : Num D} {st se : DA} {σ σ' : Env D} (h : Good2 N se σ σ') (D0 : List String)
+    (hD : ∀ x ∈ D0, x ∈ se.D) : Good2 N (DA.join D0 st se) σ σ' := by
+  refine ⟨⟨?_, fun x hx => h.1.2 x (hD x hx)⟩, ?_, ?_⟩
+  · intro x hx
+    simp only [DA.join, List.mem_filter, mem_inter] at hx
+    exact h.1.1 x hx.1.2
+  · intro f hf
+    simp only [DA.join, List.mem_filter, mem_inter] at hf
+    exact h.2.1 f hf.1.2
+  · intro p hp
+    simp only [DA.join, List.mem_filter, List.mem_append] at hp
+    rcases hp.1 with h1 | h1
+    · exact eff_sound h p h1.2
+    · exact h.2.2 p h1.1
+
+theorem Good2.knowFalse {N : Num D} {s : DA} {σ σ' : Env D} (h : Good2 N s σ σ') (c : CExpr)
+    (hc : ∀ f, c = .var f → Falsy N σ f) : Good2 N (s.knowFalse c) σ σ' := by
+  cases c with
+  | var f =>
+    have hf := hc f rfl
+    refine ⟨⟨?_, h.1.2⟩, h.2.1, h.2.2⟩
+    intro x hx
+    simp only [DA.knowFalse, List.mem_append, List.mem_filter, List.mem_map] at hx
+    rcases hx with ⟨⟨p, ⟨hp, hpf⟩, rfl⟩, _⟩ | hx
+    · have : p.1 = f := by simpa using hpf
+      exact h.2.2 p hp (this ▸ hf)
+    · exact h.1.1 x hx
+  | _ => exact h
+
+/-- entering a loop body / declaring an initialised name: facts and flags about OTHER names are untouched -/
+theorem Extra.set_other {N : Num D} {T : List String} {G : List (String × String)} {s : DA} {σ σ' : Env D}
+    (h : Extra N s σ σ') (x : String) (v : Val D)
+    (hT : ∀ f ∈ T, f ∈ s.T ∧ f ≠ x) (hG : ∀ p ∈ G, p ∈ s.G ∧ p.1 ≠ x)
+    (D' A' : List String) :
+    Extra N { D := D', A := A', T := T, G := G } (σ.set x v) (σ'.set x v) := by
+  refine ⟨?_, ?_⟩
+  · intro f hf
+    obtain ⟨h1, h2⟩ := hT f hf
+    rw [Env.set_ne σ x f v h2, Env.set_ne σ' x f v h2]
+    exact h.1 f h1
+  · intro p hp
+    obtain ⟨h1, h2⟩ := hG p hp
+    exact fact_set p x v h2 (h.2 p h1)
+
+theorem Extra.declare_other {N : Num D} {T : List String} {G : List (String × String)} {s : DA} {σ σ' : Env D}
+    (h : Extra N s σ σ') (x : String)
+    (hT : ∀ f ∈ T, f ∈ s.T ∧ f ≠ x) (hG : ∀ p ∈ G, p ∈ s.G ∧ p.1 ≠ x ∧ p.2 ≠ x)
+    (D' A' : List String) :
+    Extra N { D := D', A := A', T := T, G := G } (σ.declare x) (σ'.declare x) := by
+  refine ⟨?_, ?_⟩
+  · intro f hf
+    obtain ⟨h1, h2⟩ := hT f hf
+    rw [Env.declare_ne σ x f h2, Env.declare_ne σ' x f h2]
+    exact h.1 f h1
+  · intro p hp
+    obtain ⟨h1, h2, h3⟩ := hG p hp
+    intro hf
+    obtain ⟨w, e1, e2⟩ := h.2 p h1 ((Falsy.declare_ne N σ x p.1 h2).1 hf)
+    exact ⟨w, by rw [Env.declare_ne σ x p.2 h3]; exact e1, by rw [Env.declare_ne σ' x p.2 h3]; exact e2⟩
+
+theorem fresh_T (s : DA) (n f : String) (h : f ∈ (s.fresh n).T) : f ∈ s.T ∧ f ≠ n := by
+  simpa [DA.fresh, List.mem_filter] using h
+
+theorem fresh_G (s : DA) (n : String) (p : String × String) (h : p ∈ (s.fresh n).G) :
+    p ∈ s.G ∧ p.1 ≠ n ∧ p.2 ≠ n := by
+  simpa [DA.fresh, List.mem_filter] using h
+
+theorem castTo_bool_true (N : Num D) : castTo N "bool" (.bool true) = .ok (.bool true) := by
+  simp [castTo, asBool]
+
 /-! ## statements -/
 
 def AsubD (s : DA) : Prop := ∀ x ∈ s.A, x ∈ s.D
+
+theorem AsubD.assign {s : DA} (h : AsubD s) (x : String) (hx : x ∈ s.D) : AsubD (s.assign x) := by
+  intro y hy
+  rcases List.mem_cons.1 hy with rfl | hy
+  · exact hx
+  · exact h y hy
+
+theorem AsubD.knowFalse {s : DA} (h : AsubD s) (c : CExpr) : AsubD (s.knowFalse c) := by
+  cases c with
+  | var f =>
+    intro x hx
+    simp only [DA.knowFalse, List.mem_append, List.mem_filter] at hx
+    rcases hx with ⟨_, hx⟩ | hx
+    · have : x ∈ s.D := by simpa using hx
+      exact this
+    · exact h x hx
+  | _ => exact h
+
+theorem knowFalse_A (s : DA) (c : CExpr) : ∀ x ∈ s.A, x ∈ (s.knowFalse c).A := by
+  cases c with
+  | var f => intro x hx; simp only [DA.knowFalse, List.mem_append]; exact Or.inr hx
+  | _ => intro x hx; exact hx
+
+theorem knowFalse_D (s : DA) (c : CExpr) : (s.knowFalse c).D = s.D := by
+  cases c <;> rfl
 
 mutual
   theorem da_mono (C : DACtx) : ∀ (st : Stmt) (s s' : DA), da C st s = some s' → AsubD s →
@@ -224,15 +420,19 @@ mutual
         obtain ⟨_, hA, _⟩ := das_mono C body s s1 h1 hs
         simp only [Option.some.injEq] at h; subst h
         refine ⟨?_, ?_, fun x hx => hx⟩
-        · intro x hx; simp only [List.mem_filter, decide_eq_true_eq] at hx; exact hx.2
-        · intro x hx; simp only [List.mem_filter, decide_eq_true_eq]; exact ⟨hA x hx, hs x hx⟩
+        · intro x hx; simp only [DA.restrict, List.mem_filter, decide_eq_true_eq] at hx; exact hx.2
+        · intro x hx; simp only [DA.restrict, List.mem_filter, decide_eq_true_eq]; exact ⟨hA x hx, hs x hx⟩
       · simp at h
     | .loop x coll body, s, s', h, hs => by
       simp only [da] at h
       split at h
       · split at h
-        · simp only [Option.some.injEq] at h; subst h; exact ⟨hs, fun _ h => h, fun _ h => h⟩
         · simp at h
+        · split at h
+          · simp at h
+          · split at h
+            · simp only [Option.some.injEq] at h; subst h; exact ⟨hs, fun _ h => h, fun _ h => h⟩
+            · simp at h
       · simp at h
     | .ite c thn els, s, s', h, hs => by
       simp only [da] at h
@@ -244,13 +444,20 @@ mutual
           split at h
           · simp at h
           · rename_i se hse
-            obtain ⟨_, hAe, _⟩ := das_mono C els s se hse hs
-            simp only [Option.some.injEq] at h; subst h
-            refine ⟨?_, ?_, fun x hx => hx⟩
-            · intro x hx; simp only [List.mem_filter, decide_eq_true_eq] at hx; exact hx.2
-            · intro x hx
-              simp only [List.mem_filter, decide_eq_true_eq, mem_inter]
-              exact ⟨⟨hAt x hx, hAe x hx⟩, hs x hx⟩
+            obtain ⟨_, hAe, _⟩ := das_mono C els (s.knowFalse c) se hse (hs.knowFalse c)
+            split at h
+            · simp only [Option.some.injEq] at h; subst h
+              refine ⟨?_, ?_, fun x hx => hx⟩
+              · intro x hx; simp only [DA.restrict, List.mem_filter, decide_eq_true_eq] at hx; exact hx.2
+              · intro x hx
+                simp only [DA.restrict, List.mem_filter, decide_eq_true_eq]
+                exact ⟨hAe x (knowFalse_A s c x hx), hs x hx⟩
+            · simp only [Option.some.injEq] at h; subst h
+              refine ⟨?_, ?_, fun x hx => hx⟩
+              · intro x hx; simp only [DA.join, List.mem_filter, decide_eq_true_eq] at hx; exact hx.2
+              · intro x hx
+                simp only [DA.join, List.mem_filter, decide_eq_true_eq, mem_inter]
+                exact ⟨⟨hAt x hx, hAe x (knowFalse_A s c x hx)⟩, hs x hx⟩
       · simp at h
     | .decl ty n init, s, s', h, hs => by
       simp only [da] at h
@@ -284,21 +491,23 @@ mutual
       · rename_i hc
         simp only [Option.some.injEq] at h; subst h
         have hx : x ∈ s.D := by simp only [Bool.and_eq_true, decide_eq_true_eq] at hc; exact hc.1
-        refine ⟨?_, fun y hy => List.mem_cons_of_mem _ hy, fun _ h => h⟩
-        intro y hy
-        rcases List.mem_cons.1 hy with rfl | hy
-        · exact hx
-        · exact hs y hy
+        exact ⟨hs.assign x hx, fun y hy => List.mem_cons_of_mem _ hy, fun _ h => h⟩
       · simp at h
     | .push x e, s, s', h, hs => by
       simp only [da] at h
       split at h
-      · simp only [Option.some.injEq] at h; subst h; exact ⟨hs, fun _ h => h, fun _ h => h⟩
+      · rename_i hc
+        simp only [Option.some.injEq] at h; subst h
+        have hx : x ∈ s.A := by simp only [Bool.and_eq_true, decide_eq_true_eq] at hc; exact hc.1
+        exact ⟨hs.assign x (hs x hx), fun y hy => List.mem_cons_of_mem _ hy, fun _ h => h⟩
       · simp at h
     | .clear x, s, s', h, hs => by
       simp only [da] at h
       split at h
-      · simp only [Option.some.injEq] at h; subst h; exact ⟨hs, fun _ h => h, fun _ h => h⟩
+      · rename_i hc
+        simp only [Option.some.injEq] at h; subst h
+        have hx : x ∈ s.A := by simpa using hc
+        exact ⟨hs.assign x (hs x hx), fun y hy => List.mem_cons_of_mem _ hy, fun _ h => h⟩
       · simp at h
     | .fill _, s, s', h, hs => by
       simp only [da] at h
@@ -313,11 +522,7 @@ mutual
       · rename_i hc
         simp only [Option.some.injEq] at h; subst h
         have hv : v ∈ s.D := by simp only [Bool.and_eq_true, decide_eq_true_eq] at hc; exact hc.1
-        refine ⟨?_, fun y hy => List.mem_cons_of_mem _ hy, fun _ h => h⟩
-        intro y hy
-        rcases List.mem_cons.1 hy with rfl | hy
-        · exact hv
-        · exact hs y hy
+        exact ⟨hs.assign v hv, fun y hy => List.mem_cons_of_mem _ hy, fun _ h => h⟩
       · simp at h
     | .line _, s, s', h, _ => by simp [da] at h
   theorem das_mono (C : DACtx) : ∀ (l : List Stmt) (s s' : DA), das C l s = some s' → AsubD s →
@@ -341,18 +546,18 @@ variable {D : Type}
 
 /-- Outcomes of two runs are *good* for the resulting analysis state: the same fault, which is
 not `unbound`; or two states that are good for it and have written the same rows. -/
-def ResGood (s' : DA) (r r' : Except Fault (St D)) : Prop :=
+def ResGood (N : Num D) (s' : DA) (r r' : Except Fault (St D)) : Prop :=
   (∃ f, r = .error f ∧ r' = .error f ∧ ∀ n, f ≠ .unbound n) ∨
-  (∃ t t', r = .ok t ∧ r' = .ok t' ∧ Good s' t.env t'.env ∧ t.rows = t'.rows)
+  (∃ t t', r = .ok t ∧ r' = .ok t' ∧ Good2 N s' t.env t'.env ∧ t.rows = t'.rows)
 
-theorem ResGood.weaken {s s' : DA} {r r' : Except Fault (St D)} (h : ResGood s' r r')
-    (hA : ∀ x ∈ s.A, x ∈ s'.A) (hD : ∀ x ∈ s.D, x ∈ s'.D) : ResGood s r r' := by
+theorem ResGood.map {N : Num D} {s s' : DA} {r r' : Except Fault (St D)} (h : ResGood N s' r r')
+    (hm : ∀ σ σ' : Env D, Good2 N s' σ σ' → Good2 N s σ σ') : ResGood N s r r' := by
   rcases h with h | ⟨t, t', h1, h2, hg, hr⟩
   · exact Or.inl h
-  · exact Or.inr ⟨t, t', h1, h2, hg.weaken hA hD, hr⟩
+  · exact Or.inr ⟨t, t', h1, h2, hm _ _ hg, hr⟩
 
-theorem resGood_err {s' : DA} (f : Fault) (hf : ∀ n, f ≠ .unbound n) :
-    ResGood (D := D) s' (.error f) (.error f) := Or.inl ⟨f, rfl, rfl, hf⟩
+theorem resGood_err {N : Num D} {s' : DA} (f : Fault) (hf : ∀ n, f ≠ .unbound n) :
+    ResGood N s' (.error f) (.error f) := Or.inl ⟨f, rfl, rfl, hf⟩
 
 theorem readCols_good (s : DA) (σ σ' : Env D) (h : Good s σ σ') :
     ∀ cols : List String, (∀ c ∈ cols, c ∈ s.A) → readCols σ cols = readCols σ' cols ∧ NotUnbound (readCols σ cols)
@@ -398,23 +603,48 @@ theorem retrReq_good (C : Ctx D) (DC : DACtx) (htok : ∀ t ∈ DC.tokens, (C.to
       | ok v =>
         cases v <;> simp only [] <;> (repeat' split) <;> simp
 
-theorem iter_good (s sb : DA) (f : St D → Val D → Except Fault (St D))
-    (hf : ∀ t t' v, Good s t.env t'.env → t.rows = t'.rows → ResGood sb (f t v) (f t' v))
-    (hA : ∀ x ∈ s.A, x ∈ sb.A) (hD : ∀ x ∈ s.D, x ∈ sb.D) :
-    ∀ (l : List (Val D)) (t t' : St D), Good s t.env t'.env → t.rows = t'.rows →
-      ResGood s (iter f l t) (iter f l t')
+/-- a loop preserves any relation on the two environments that its body preserves -/
+theorem iter_inv (P : Env D → Env D → Prop) (f : St D → Val D → Except Fault (St D))
+    (hf : ∀ t t' v, P t.env t'.env → t.rows = t'.rows →
+      (∃ e, f t v = .error e ∧ f t' v = .error e ∧ ∀ n, e ≠ .unbound n) ∨
+      (∃ u u', f t v = .ok u ∧ f t' v = .ok u' ∧ P u.env u'.env ∧ u.rows = u'.rows)) :
+    ∀ (l : List (Val D)) (t t' : St D), P t.env t'.env → t.rows = t'.rows →
+      (∃ e, iter f l t = .error e ∧ iter f l t' = .error e ∧ ∀ n, e ≠ .unbound n) ∨
+      (∃ u u', iter f l t = .ok u ∧ iter f l t' = .ok u' ∧ P u.env u'.env ∧ u.rows = u'.rows)
   | [], t, t', hg, hr => Or.inr ⟨t, t', rfl, rfl, hg, hr⟩
   | v :: vs, t, t', hg, hr => by
     rcases hf t t' v hg hr with ⟨e, h1, h2, he⟩ | ⟨u, u', h1, h2, hgu, hru⟩
-    · simp only [iter, h1, h2]; exact resGood_err e he
+    · simp only [iter, h1, h2]; exact Or.inl ⟨e, rfl, rfl, he⟩
     · simp only [iter, h1, h2]
-      exact iter_good s sb f hf hA hD vs u u' (hgu.weaken hA hD) hru
+      exact iter_inv P f hf vs u u' hgu hru
+
+theorem isThrow_eq (l : List Stmt) (h : isThrow l = true) : ∃ m, l = [.throw m] := by
+  match l, h with
+  | [.throw m], _ => exact ⟨m, rfl⟩
+
+theorem cand_sound {N : Num D} {s : DA} {σ σ' : Env D} (h : Good2 N s σ σ') :
+    ∀ p ∈ loopCand s, Falsy N σ p.1 → ∃ v, σ p.2 = some (.val v) ∧ σ' p.2 = some (.val v) := by
+  intro p hp hf
+  simp only [loopCand, List.mem_filter, List.mem_append, List.mem_flatMap, List.mem_map] at hp
+  rcases hp.1 with h1 | ⟨f, hfT, y, _, rfl⟩
+  · exact h.2.2 p h1 hf
+  · obtain ⟨v, hv, hb⟩ := hf
+    have := (h.2.1 f hfT).1
+    simp only at hv
+    rw [this] at hv
+    simp only [Option.some.injEq, Slot.val.injEq] at hv
+    subst hv
+    simp [asBool] at hb
+
+theorem cand_inD (s : DA) (p : String × String) (h : p ∈ loopCand s) : p.1 ∈ s.D ∧ p.2 ∈ s.D := by
+  simp only [loopCand, List.mem_filter, inD, Bool.and_eq_true, decide_eq_true_eq] at h
+  exact h.2
 
 mutual
   theorem exec_sound (C : Ctx D) (DC : DACtx) (hcols : DC.cols = C.cols)
       (htok : ∀ t ∈ DC.tokens, (C.tokenBank t).isSome = true) :
       ∀ (st : Stmt) (s s' : DA) (t t' : St D), da DC st s = some s' → AsubD s →
-        Good s t.env t'.env → t.rows = t'.rows → ResGood s' (exec C st t) (exec C st t')
+        Good2 C.N s t.env t'.env → t.rows = t'.rows → ResGood C.N s' (exec C st t) (exec C st t')
     | .block body, s, s', t, t', h, hs, hg, hr => by
       simp only [da] at h
       split at h
@@ -423,36 +653,63 @@ mutual
         have := execs_sound C DC hcols htok body s s1 t t' h1 hs hg hr
         obtain ⟨_, _, hD1⟩ := das_mono DC body s s1 h1 hs
         simp only [exec]
-        exact this.weaken (fun x hx => by simp only [List.mem_filter, decide_eq_true_eq] at hx; exact hx.1) hD1
+        exact this.map (fun σ σ' hg1 => hg1.restrict s.D hD1)
       · simp at h
     | .loop x coll body, s, s', t, t', h, hs, hg, hr => by
       simp only [da] at h
       split at h
       · rename_i hc
         split at h
-        · rename_i sb hb
-          simp only [Option.some.injEq] at h; subst h
-          have hc' : okE s coll = true ∧ x ∉ s.D := by simpa using hc
-          have he := okE_good C.N s t.env t'.env hg coll hc'.1
-          simp only [exec, ← he.1]
-          cases hr' : evalE C.N t.env coll with
-          | error f => exact resGood_err f (fun n => by have := he.2 n; rw [hr'] at this; simpa using this)
-          | ok v =>
-            have hsx : AsubD { D := x :: s.D, A := x :: s.A } := by
-              intro y hy
-              rcases List.mem_cons.1 hy with rfl | hy
-              · simp
-              · exact List.mem_cons_of_mem _ (hs y hy)
-            obtain ⟨_, hAb, hDb⟩ := das_mono DC body _ sb hb hsx
-            cases v with
-            | vec l =>
-              simp only []
-              apply iter_good s sb _ _ (fun y hy => hAb y (List.mem_cons_of_mem _ hy))
-                (fun y hy => hDb y (List.mem_cons_of_mem _ hy)) l t t' hg hr
-              intro u u' w hgu hru
-              exact execs_sound C DC hcols htok body _ sb _ _ hb hsx (hgu.set x w) hru
-            | _ => exact resGood_err _ (by simp)
         · simp at h
+        · rename_i sb1 hb1
+          split at h
+          · simp at h
+          · rename_i sb2 hb2
+            split at h
+            · rename_i hall
+              simp only [Option.some.injEq] at h; subst h
+              have hc' : okE s coll = true ∧ x ∉ s.D := by simpa using hc
+              have he := okE_good C.N s t.env t'.env hg.1 coll hc'.1
+              simp only [exec, ← he.1]
+              cases hr' : evalE C.N t.env coll with
+              | error f => exact resGood_err f (fun n => by have := he.2 n; rw [hr'] at this; simpa using this)
+              | ok v =>
+                cases v with
+                | vec l =>
+                  simp only []
+                  -- the invariant: good for `s` with the surviving facts
+                  let inv := (loopCand s).filter sb1.eff
+                  let sI : DA := { s with T := [], G := inv }
+                  have hinv_cand : ∀ p ∈ inv, p ∈ loopCand s := fun p hp => (List.mem_filter.1 hp).1
+                  have hsx : AsubD (loopHead s x inv) := by
+                    intro y hy
+                    rcases List.mem_cons.1 hy with rfl | hy
+                    · simp [loopHead]
+                    · exact List.mem_cons_of_mem _ (hs y hy)
+                  obtain ⟨_, hAb, hDb⟩ := das_mono DC body _ sb2 hb2 hsx
+                  have hstart : Good2 C.N sI t.env t'.env :=
+                    ⟨hg.1.of_eq rfl rfl, by intro f hf; simp [sI] at hf, fun p hp => cand_sound hg p (hinv_cand p hp)⟩
+                  have := iter_inv (fun σ σ' => Good2 C.N sI σ σ')
+                    (fun s0 v0 => execs C body { s0 with env := s0.env.set x v0 }) ?_ l t t' hstart hr
+                  · rcases this with ⟨e, h1, h2, h3⟩ | ⟨u, u', h1, h2, h3, h4⟩
+                    · exact Or.inl ⟨e, h1, h2, h3⟩
+                    · exact Or.inr ⟨u, u', h1, h2, h3, h4⟩
+                  · intro u u' w hgu hru
+                    have hhead : Good2 C.N (loopHead s x inv) (u.env.set x w) (u'.env.set x w) := by
+                      refine ⟨(hgu.1.set x w).of_eq rfl rfl, ?_⟩
+                      exact Extra.set_other (s := sI) hgu.2 x w (by intro f hf; simp at hf)
+                        (fun p hp => ⟨hp, fun e => hc'.2 (e ▸ (cand_inD s p (hinv_cand p hp)).1)⟩) _ _
+                    rcases execs_sound C DC hcols htok body _ sb2 { u with env := u.env.set x w } { u' with env := u'.env.set x w }
+                      hb2 hsx hhead hru with ⟨e, h1, h2, h3⟩ | ⟨z, z', h1, h2, h3, h4⟩
+                    · exact Or.inl ⟨e, h1, h2, h3⟩
+                    · refine Or.inr ⟨z, z', h1, h2, ⟨⟨?_, ?_⟩, ?_, ?_⟩, h4⟩
+                      · intro y hy; exact h3.1.1 y (hAb y (List.mem_cons_of_mem _ hy))
+                      · intro y hy; exact h3.1.2 y (hDb y (List.mem_cons_of_mem _ hy))
+                      · intro f hf; simp [sI] at hf
+                      · intro p hp
+                        exact eff_sound h3 p (List.all_eq_true.1 hall p hp)
+                | _ => exact resGood_err _ (by simp)
+            · simp at h
       · simp at h
     | .ite c thn els, s, s', t, t', h, hs, hg, hr => by
       simp only [da] at h
@@ -464,10 +721,10 @@ mutual
           split at h
           · simp at h
           · rename_i se hse
-            simp only [Option.some.injEq] at h; subst h
-            have he := okE_good C.N s t.env t'.env hg c hc
+            have he := okE_good C.N s t.env t'.env hg.1 c hc
             obtain ⟨_, _, hDt⟩ := das_mono DC thn s st hst hs
-            obtain ⟨_, _, hDe⟩ := das_mono DC els s se hse hs
+            obtain ⟨_, _, hDe⟩ := das_mono DC els (s.knowFalse c) se hse (hs.knowFalse c)
+            rw [knowFalse_D] at hDe
             simp only [exec, ← he.1]
             cases hr' : evalE C.N t.env c with
             | error f => exact resGood_err f (fun n => by have := he.2 n; rw [hr'] at this; simpa using this)
@@ -479,12 +736,37 @@ mutual
                 cases b with
                 | true =>
                   simp only []
-                  exact (execs_sound C DC hcols htok thn s st t t' hst hs hg hr).weaken
-                    (fun x hx => by simp only [List.mem_filter, decide_eq_true_eq, mem_inter] at hx; exact hx.1.1) hDt
+                  split at h
+                  · rename_i hthrow
+                    obtain ⟨m, rfl⟩ := isThrow_eq thn hthrow
+                    simp only [execs, exec]
+                    exact resGood_err _ (by simp)
+                  · simp only [Option.some.injEq] at h; subst h
+                    exact (execs_sound C DC hcols htok thn s st t t' hst hs hg hr).map
+                      (fun σ σ' hg1 => hg1.join_left s.D hDt)
                 | false =>
                   simp only []
-                  exact (execs_sound C DC hcols htok els s se t t' hse hs hg hr).weaken
-                    (fun x hx => by simp only [List.mem_filter, decide_eq_true_eq, mem_inter] at hx; exact hx.1.2) hDe
+                  have hkf : Good2 C.N (s.knowFalse c) t.env t'.env := by
+                    apply hg.knowFalse c
+                    intro f hcf
+                    subst hcf
+                    simp only [evalE] at hr'
+                    cases hx : t.env f with
+                    | none => rw [hx] at hr'; simp at hr'
+                    | some sl =>
+                      rw [hx] at hr'
+                      cases sl with
+                      | uninit => simp at hr'
+                      | val w =>
+                        simp only [Except.ok.injEq] at hr'
+                        subst hr'
+                        exact ⟨w, hx, hb⟩
+                  have hres := execs_sound C DC hcols htok els (s.knowFalse c) se t t' hse (hs.knowFalse c) hkf hr
+                  split at h
+                  · simp only [Option.some.injEq] at h; subst h
+                    exact hres.map (fun σ σ' hg1 => hg1.restrict s.D hDe)
+                  · simp only [Option.some.injEq] at h; subst h
+                    exact hres.map (fun σ σ' hg1 => hg1.join_right s.D hDe)
       · simp at h
     | .decl ty n init, s, s', t, t', h, hs, hg, hr => by
       simp only [da] at h
@@ -497,7 +779,7 @@ mutual
           split at h
           · rename_i hc
             simp only [Option.some.injEq] at h; subst h
-            have he := okE_good C.N s t.env t'.env hg e hc
+            have he := okE_good C.N s t.env t'.env hg.1 e hc
             simp only [exec, ← he.1]
             cases hr' : evalE C.N t.env e with
             | error f => exact resGood_err f (fun n => by have := he.2 n; rw [hr'] at this; simpa using this)
@@ -505,7 +787,31 @@ mutual
               simp only []
               cases hcst : castTo C.N ty v with
               | error f => exact resGood_err f (castTo_nu C.N ty v · |> fun h => by rw [hcst] at h; simpa using h)
-              | ok v' => exact Or.inr ⟨_, _, rfl, rfl, hg.set n v', hr⟩
+              | ok v' =>
+                refine Or.inr ⟨_, _, rfl, rfl, ⟨(hg.1.set n v').of_eq rfl rfl, ?_⟩, hr⟩
+                have hbase := Extra.set_other (s := s) hg.2 n v' (T := (s.fresh n).T) (G := (s.fresh n).G)
+                  (fun f hf => fresh_T s n f hf) (fun p hp => ⟨(fresh_G s n p hp).1, (fresh_G s n p hp).2.1⟩)
+                  (n :: s.D) (n :: s.A)
+                split
+                · rename_i hcond
+                  refine ⟨?_, hbase.2⟩
+                  intro f hf
+                  rcases List.mem_cons.1 hf with rfl | hf
+                  · -- the declared flag itself: `bool n (true)`
+                    have hty : ty = "bool" := hcond.1
+                    have hlit : e = .bool true := by
+                      have := hcond.2
+                      cases e <;> simp [isTrueLit] at this
+                      rename_i b; cases b <;> simp_all [isTrueLit]
+                    subst hty hlit
+                    simp only [evalE, Except.ok.injEq] at hr'
+                    subst hr'
+                    rw [castTo_bool_true] at hcst
+                    simp only [Except.ok.injEq] at hcst
+                    subst hcst
+                    exact ⟨Env.set_eq _ _ _, Env.set_eq _ _ _⟩
+                  · exact hbase.1 f hf
+                · exact hbase
           · simp at h
         | none =>
           simp only at h
@@ -513,19 +819,23 @@ mutual
           · rename_i hv
             simp only [Option.some.injEq] at h; subst h
             simp only [exec, hv, if_true]
-            exact Or.inr ⟨_, _, rfl, rfl, hg.set n _, hr⟩
+            refine Or.inr ⟨_, _, rfl, rfl, ⟨(hg.1.set n _).of_eq rfl rfl, ?_⟩, hr⟩
+            exact Extra.set_other (s := s) hg.2 n _ (fun f hf => fresh_T s n f hf)
+              (fun p hp => ⟨(fresh_G s n p hp).1, (fresh_G s n p hp).2.1⟩) _ _
           · rename_i hv
             simp only [Option.some.injEq] at h; subst h
             simp only [exec, hv]
-            exact Or.inr ⟨_, _, rfl, rfl, hg.declare n (fun hA => hn (hs n hA)), hr⟩
+            refine Or.inr ⟨_, _, rfl, rfl, ⟨(hg.1.declare n (fun hA => hn (hs n hA))).of_eq rfl rfl, ?_⟩, hr⟩
+            exact Extra.declare_other (s := s) hg.2 n (fun f hf => fresh_T s n f hf)
+              (fun p hp => fresh_G s n p hp) _ _
     | .set x e, s, s', t, t', h, hs, hg, hr => by
       simp only [da] at h
       split at h
       · rename_i hc
         simp only [Option.some.injEq] at h; subst h
         have hc' : x ∈ s.D ∧ okE s e = true := by simpa using hc
-        have he := okE_good C.N s t.env t'.env hg e hc'.2
-        obtain ⟨h1, h2⟩ := hg.2 x hc'.1
+        have he := okE_good C.N s t.env t'.env hg.1 e hc'.2
+        obtain ⟨h1, h2⟩ := hg.1.2 x hc'.1
         simp only [exec, ← he.1]
         cases hx : t.env x with
         | none => rw [hx] at h1; simp at h1
@@ -536,7 +846,7 @@ mutual
             simp only []
             cases hr' : evalE C.N t.env e with
             | error f => exact resGood_err f (fun n => by have := he.2 n; rw [hr'] at this; simpa using this)
-            | ok v => exact Or.inr ⟨_, _, rfl, rfl, hg.set' x v, hr⟩
+            | ok v => exact Or.inr ⟨_, _, rfl, rfl, hg.assign x v, hr⟩
       · simp at h
     | .push x e, s, s', t, t', h, hs, hg, hr => by
       simp only [da] at h
@@ -544,16 +854,15 @@ mutual
       · rename_i hc
         simp only [Option.some.injEq] at h; subst h
         have hc' : x ∈ s.A ∧ okE s e = true := by simpa using hc
-        have he := okE_good C.N s t.env t'.env hg e hc'.2
-        obtain ⟨v, h1, h2⟩ := hg.1 x hc'.1
+        have he := okE_good C.N s t.env t'.env hg.1 e hc'.2
+        obtain ⟨v, h1, h2⟩ := hg.1.1 x hc'.1
         simp only [exec, h1, h2, ← he.1]
         cases v with
         | vec l =>
           simp only []
           cases hr' : evalE C.N t.env e with
           | error f => exact resGood_err f (fun n => by have := he.2 n; rw [hr'] at this; simpa using this)
-          | ok w =>
-            exact Or.inr ⟨_, _, rfl, rfl, (hg.set' x _).weaken (fun y hy => List.mem_cons_of_mem _ hy) (fun _ hy => hy), hr⟩
+          | ok w => exact Or.inr ⟨_, _, rfl, rfl, hg.assign x _, hr⟩
         | _ => exact resGood_err _ (by simp)
       · simp at h
     | .clear x, s, s', t, t', h, hs, hg, hr => by
@@ -561,11 +870,10 @@ mutual
       split at h
       · rename_i hc
         simp only [Option.some.injEq] at h; subst h
-        obtain ⟨v, h1, h2⟩ := hg.1 x (by simpa using hc)
+        obtain ⟨v, h1, h2⟩ := hg.1.1 x (by simpa using hc)
         simp only [exec, h1, h2]
         cases v with
-        | vec l =>
-          exact Or.inr ⟨_, _, rfl, rfl, (hg.set' x _).weaken (fun y hy => List.mem_cons_of_mem _ hy) (fun _ hy => hy), hr⟩
+        | vec l => exact Or.inr ⟨_, _, rfl, rfl, hg.assign x _, hr⟩
         | _ => exact resGood_err _ (by simp)
       · simp at h
     | .fill _, s, s', t, t', h, hs, hg, hr => by
@@ -573,7 +881,7 @@ mutual
       split at h
       · rename_i hc
         simp only [Option.some.injEq] at h; subst h
-        have hcs := readCols_good s t.env t'.env hg C.cols (by rw [← hcols]; exact (subset_iff _ _).1 hc)
+        have hcs := readCols_good s t.env t'.env hg.1 C.cols (by rw [← hcols]; exact (subset_iff _ _).1 hc)
         simp only [exec, ← hcs.1]
         cases hr' : readCols t.env C.cols with
         | error f => exact resGood_err f (fun n => by have := hcs.2 n; rw [hr'] at this; simpa using this)
@@ -587,8 +895,8 @@ mutual
       · rename_i hc
         simp only [Option.some.injEq] at h; subst h
         have hc' : v ∈ s.D ∧ retrOk DC s how bank token = true := by simpa using hc
-        have hq := retrReq_good C DC htok s t.env t'.env hg how ty bank token hc'.2
-        obtain ⟨h1, h2⟩ := hg.2 v hc'.1
+        have hq := retrReq_good C DC htok s t.env t'.env hg.1 how ty bank token hc'.2
+        obtain ⟨h1, h2⟩ := hg.1.2 v hc'.1
         simp only [exec, ← hq.1]
         cases hx : t.env v with
         | none => rw [hx] at h1; simp at h1
@@ -599,13 +907,13 @@ mutual
             simp only []
             cases hr' : retrReq C t.env how ty bank token with
             | error f => exact resGood_err f (fun n => by have := hq.2 n; rw [hr'] at this; simpa using this)
-            | ok content => exact Or.inr ⟨_, _, rfl, rfl, hg.set' v content, hr⟩
+            | ok content => exact Or.inr ⟨_, _, rfl, rfl, hg.assign v content, hr⟩
       · simp at h
     | .line _, s, s', t, t', h, _, _, _ => by simp [da] at h
   theorem execs_sound (C : Ctx D) (DC : DACtx) (hcols : DC.cols = C.cols)
       (htok : ∀ t ∈ DC.tokens, (C.tokenBank t).isSome = true) :
       ∀ (l : List Stmt) (s s' : DA) (t t' : St D), das DC l s = some s' → AsubD s →
-        Good s t.env t'.env → t.rows = t'.rows → ResGood s' (execs C l t) (execs C l t')
+        Good2 C.N s t.env t'.env → t.rows = t'.rows → ResGood C.N s' (execs C l t) (execs C l t')
     | [], s, s', t, t', h, hs, hg, hr => by
       simp only [das, Option.some.injEq] at h; subst h
       exact Or.inr ⟨t, t', rfl, rfl, hg, hr⟩
